@@ -1,7 +1,7 @@
 """C16 — failures carry a documented status and a message that tells the story."""
 import kdf, dumpgen
 
-THEOREMS = []
+THEOREMS = ["Kdf.Props.C16." + t for t in ("init_inv", "clear_inv", "vadd_chain", "vadd_fits_no_alloc", "vadd_trunc", "vadd_inbounds", "history_inv", "history_chain", "codes_documented", "status_roundtrip", "addrxlat2kdump_documented", "probe_never_noprobe")]
 BUFSZ = [64, 80, 160]          # ERRBUF of addrxlat ctx, bitmap objects, kdump ctx
 
 
